@@ -123,7 +123,11 @@ func main() {
 func observe(c *caseRec) []map[string]any {
 	switch c.Kind {
 	case "rest":
-		return []map[string]any{aspIdentity(c), aspLitFmt(c), aspLitParse(c), aspIdentURL(c), aspStrongWeak(c), aspReadBack(c)}
+		recs := []map[string]any{aspIdentity(c), aspLitFmt(c), aspLitParse(c), aspIdentURL(c), aspReadBack(c)}
+		if c.Base == "" { // strong vs weak does not involve the base URL
+			recs = append(recs, aspStrongWeak(c))
+		}
+		return recs
 	case "frag":
 		return []map[string]any{aspLitParse(c), aspIdentURL(c), aspFragRef(c), aspReadBack(c)}
 	case "urn":
@@ -162,8 +166,8 @@ func compact(rec map[string]any) {
 		if m, _ := p["msg"].(string); m != "" {
 			q["msg"] = m
 		}
-		if s, _ := p["site"].(string); s != "" {
-			q["site"] = s
+		if k := p["k"]; k == "panic" || k == "timeout" {
+			q["site"], _ = p["site"].(string) // the judge names the site of a crash in the signature
 		}
 		rec[k] = q
 	}
